@@ -759,7 +759,7 @@ theorem remove_truthful (gs : List String) (g : String) (unstopped : Bool) (faul
     table; for every other answer -- a fault (ALREADY_ADDED, or the fault the method raises for an exception class it
     catches around the call: regenerated table `rpcAddCaught`) or an exception that escapes -- either nothing was announced
     and the table is unchanged, or the addition was done and announced once.  For every exception class. -/
-theorem rpc_add_truthful (gs : List String) (g : String) (fault : Option String) (cls : String) :
+theorem rpc_add_truthful (gs : List String) (g : String) (fault : Option String) (cls : List String) :
     ((rpcAdd gs g fault cls).2 = .ok →
       (rpcAdd gs g fault cls).1.notes = [⟨"ProcessGroupAddedEvent", g, true⟩] ∧ g ∉ gs ∧ (rpcAdd gs g fault cls).1.groups = gs ++ [g]) ∧
     (((rpcAdd gs g fault cls).1.notes = [⟨"ProcessGroupAddedEvent", g, true⟩] ∧ (rpcAdd gs g fault cls).1.groups = gs ++ [g]) ∨
@@ -783,7 +783,7 @@ theorem rpc_add_truthful (gs : List String) (g : String) (fault : Option String)
     · left; exact ⟨h.1, h.2.2.1⟩
     · right; exact ⟨h.1, h.2.1⟩
 
-theorem rpc_remove_truthful (gs : List String) (g : String) (u : Bool) (fault : Option String) (cls : String) :
+theorem rpc_remove_truthful (gs : List String) (g : String) (u : Bool) (fault : Option String) (cls : List String) :
     ((rpcRemove gs g u fault cls).2 = .ok →
       (rpcRemove gs g u fault cls).1.notes = [⟨"ProcessGroupRemovedEvent", g, false⟩] ∧ g ∈ gs ∧
       (rpcRemove gs g u fault cls).1.groups = gs.filter (· ≠ g)) ∧
@@ -808,10 +808,12 @@ theorem rpc_remove_truthful (gs : List String) (g : String) (u : Bool) (fault : 
     · left; exact ⟨h.1, h.2.2.1⟩
     · right; exact ⟨h.1, h.2.1⟩
 
--- a ValueError out of make_group is answered as the fault the method raises for it; another class escapes; nothing is announced either way
-example : (match (rpcAdd ["a"] "b" (some "make_group") "ValueError").2 with | .fault _ => true | _ => false) = true ∧
-    (rpcAdd ["a"] "b" (some "make_group") "ValueError").1.notes = [] := by decide
-example : (rpcAdd ["a"] "b" (some "make_group") "RuntimeError").2 = .escaped "make_group" ∧ (rpcAdd ["a"] "b" (some "make_group") "RuntimeError").1.groups = ["a"] := by decide
+-- an exception of a class the method catches (here: the first class of the regenerated handler table, and a subclass of it) is
+-- answered as the fault raised for it; a class that is not caught escapes; nothing is announced either way
+example : ∀ h ∈ rpcAddCaught.head?, (rpcAdd ["a"] "b" (some "make_group") ["SubClass", h.1, "Exception"]).2 = .fault h.2 ∧
+    (rpcAdd ["a"] "b" (some "make_group") ["SubClass", h.1, "Exception"]).1.notes = [] := by decide
+example : (rpcAdd ["a"] "b" (some "make_group") ["NotCaughtError", "BaseException"]).2 = .escaped "make_group" ∧
+    (rpcAdd ["a"] "b" (some "make_group") ["NotCaughtError", "BaseException"]).1.groups = ["a"] := by decide
 
 /-- the successful cases are reachable: an addition without fault and a removal of a stopped group -/
 example : (addGroup ["a"] "b" none).notes = [⟨"ProcessGroupAddedEvent", "b", true⟩] ∧ (addGroup ["a"] "b" none).res = some (.ret true) := by decide
